@@ -2092,6 +2092,12 @@ theorem link_run_src_total (cfg : CheckCfg) (hst : cfg.stave = false) (ps : List
     (Or.inr rfl) (fun _ => Or.inr trivial)
   exact ⟨s', ms, hok, link_run_src cfg hst ps st _ s' ms hr hpk hok⟩
 
+/-- non-vacuity of `PacketOk`: a header-only packet at offset 0, and a packet with a one-word payload -/
+example : PacketOk (default, 0, []) := ⟨by decide, by decide, by decide, by decide, fun ws h => by
+  have h0 : cutPayload [] = some [] := by
+    simp [cutPayload, ffRun, chunksExact_short 10 ([] : Bytes) (by decide), chunksExact_short 16 ([] : Bytes) (by decide)]
+  rw [h0] at h; cases h; decide⟩
+
 /-- the hypotheses of `link_run_src` are met at the start: freshly constructed validators (`RdhCruSanityValidator::new_from_config` as tied
     in C10 `validator_for_config_src`, `RdhCruRunningChecker::new`, a `CdpRunningValidator` with the default state machine and an empty
     status-word container) stand for the model's initial link state -/
